@@ -249,6 +249,11 @@ func (x *Exec) specParams(spec *FuncSpec, fn *ssa.Function, args []Val) map[stri
 				a := args[i]
 				a.Typ = p.Type()
 				vars[p.Name()] = a
+				if x.eng.nameAliases != nil {
+					for _, old := range x.eng.nameAliases[funcKey(fn)][p.Name()] {
+						vars[old] = a
+					}
+				}
 			}
 		}
 		return vars
@@ -303,6 +308,11 @@ func (x *Exec) applyContract(st *State, spec *FuncSpec, fn *ssa.Function, args [
 				vars[fv.Name()] = st.load(b)
 			} else {
 				vars[fv.Name()] = b
+			}
+			if x.eng.nameAliases != nil {
+				for _, old := range x.eng.nameAliases[funcKey(fn)][fv.Name()] {
+					vars[old] = vars[fv.Name()]
+				}
 			}
 		}
 	}
